@@ -16,3 +16,7 @@ import SpoxModel.Props.C04
 #print axioms C04.double_introduction_rejected
 #print axioms C04.least_enclosing
 #print axioms C04.scope_defined
+#print axioms C04.build_valid_of_facts
+#print axioms C04.build_valid
+#print axioms C04.build_correct
+#print axioms C04.build_valid_checked
